@@ -113,6 +113,71 @@ def _closure_is_active_test(prog, cl):
     return None
 
 
+WORLDS = ("absent", "Active", "Pending", "Inactive")
+
+
+def guard_by_worlds(prog, f, is_site):
+    """Decide by symbolic evaluation of f, once per state of the stored record for the looked-up group id (absent / Active /
+    Pending / Inactive), whether a site call can execute.  Returns {world: reached?} or None when the evaluation is undecided
+    (then the structural rule decides).  The lookup is any call reaching GroupStorage::find_group_by_mls_group_id."""
+    lookup = A.ReachCache(prog, lambda x: K.is_storage_trait_call(x, "find_group_by_mls_group_id"))
+    out = {}
+    looked = [False]
+    # the evaluator hands hooks the raw callee record; map it back to the Call object (closures are evaluated too)
+    by_callee = {}
+    for g in [f] + [prog.fns[p_] for p_ in prog.fns if prog.fns[p_].root == f.path and prog.fns[p_] is not f]:
+        for c in g.calls():
+            by_callee[id(c.callee)] = c
+    WRITES = ("save_group", "replace_group_relays", "save_welcome", "save_processed_welcome")
+    for world in WORLDS:
+        GROUP = ("symgroup", world)
+
+        def proj(v, e, world=world):
+            if v == ("symgroup", world) and e == ".state":
+                return ("variant", "GroupState", world, ())
+            return None
+
+        def classify(v):
+            if v[0] == "variant" and v[1] == "GroupState":
+                return v[2]
+            return None
+
+        def relation(a, b):
+            return 0 if a == b else (1 if a > b else -1)
+
+        def hook(cal, args, world=world, GROUP=GROUP):
+            name = cal.get("name")
+            cobj = by_callee.get(id(cal))
+            if cobj is not None and lookup.call(cobj) and not A.ReachCache(prog, lambda x: K.is_storage_trait_call(x, *WRITES)).call(cobj):
+                looked[0] = True
+                opt = ("variant", "Option", "None", ()) if world == "absent" else ("variant", "Option", "Some", (GROUP,))
+                return ("variant", "Result", "Ok", (opt,))
+            if name == "is_some_and" and len(args) == 2 and args[0][0] == "variant" and args[0][1] == "Option":
+                if args[0][2] == "None":
+                    return ("int", 0)
+                return ev._call_closure(args[1], [args[0][3][0]])
+            if name in ("is_none_or",) and len(args) == 2 and args[0][0] == "variant" and args[0][1] == "Option":
+                if args[0][2] == "None":
+                    return ("int", 1)
+                return ev._call_closure(args[1], [args[0][3][0]])
+            if name == "is_some" and args and args[0][0] == "variant" and args[0][1] == "Option":
+                return ("int", int(args[0][2] == "Some"))
+            if name == "is_none" and args and args[0][0] == "variant" and args[0][1] == "Option":
+                return ("int", int(args[0][2] == "None"))
+            return None
+        ev = dtable.Evaluator(f, classify, relation, lambda bb, v, t: None, max_steps=6000, call_hook=hook, prog=prog)
+        ev.proj_hook = proj
+        ev.log_pred = lambda cal: "site" if (by_callee.get(id(cal)) is not None and is_site(by_callee[id(cal)])) else None
+        try:
+            ev.run_all({}, fork=True, max_paths=4000)
+        except dtable.Undecided:
+            return None
+        out[world] = any("site" in log for _, log in ev.path_logs)
+    if not looked[0]:
+        return {"no-lookup": True, **out}
+    return out
+
+
 def state_guarded(prog, f, site_bb):
     """is the site reachable only when the record found by a lookup of the group id is NOT Active?
     (`existing.state == GroupState::Active` false side, `!=` true side, or `.is_some_and(|g| g.state == Active)` false side;
@@ -155,19 +220,38 @@ def state_guarded(prog, f, site_bb):
     return False
 
 
+def decide_guard(prog, rep, f, is_site, sites, what, must_write=("Pending",)):
+    """the site never executes when the stored record for the looked-up id is Active: decided by evaluating f once per record state;
+    if the evaluation is undecided, by the structural rule (the site is only reachable over a `not Active` edge)"""
+    w = guard_by_worlds(prog, f, is_site)
+    if w is not None:
+        rep.extra.setdefault("existing_record_worlds", {})[what] = {k: bool(v) for k, v in w.items()}
+        # untouched when Active — and still written in the other states (a stale Inactive / Pending record must be refreshed,
+        # otherwise the record a later accept turns Active is not the invitation's)
+        return w.get("Active") is False and not w.get("no-lookup") and all(w.get(k) for k in must_write)
+    rep.note("%s: symbolic evaluation undecided, structural rule used" % what)
+    return all(state_guarded(prog, f, c.bb) for c in sites)
+
+
 def clause_existing_group(prog, rep, pw):
     """writes keyed by the inviter-chosen group id must depend on a lookup of that id (existing Active group untouched)"""
     lookups = [c for c in pw.live_calls() if A.ReachCache(prog, lambda x: K.is_storage_trait_call(x, "find_group_by_mls_group_id")).call(c)
                and not K.is_storage_trait_call(c, "save_group")]
-    for c in pw.live_calls():
-        if not K.is_storage_trait_call(c, "save_group", "replace_group_relays"):
+    n = 0
+    for wname in ("save_group", "replace_group_relays"):
+        wr = A.ReachCache(prog, lambda x, wname=wname: K.is_storage_trait_call(x, wname))
+        sites = [c for c in pw.live_calls() if wr.call(c)]
+        if not sites:
             continue
-        ok = state_guarded(prog, pw, c.bb)
-        rep.check(ok, "existing-group-untouched", "MDK::process_welcome/%s" % c.name,
-                  "the write under the inviter-chosen group id depends on the state of an existing record for that id",
+        n += 1
+        c = sites[0]
+        ok = decide_guard(prog, rep, pw, lambda x, wr=wr: wr.call(x), sites, "MDK::process_welcome/%s" % wname, must_write=("absent", "Pending", "Inactive"))
+        rep.check(ok, "existing-group-untouched", "MDK::process_welcome/%s" % wname,
+                  "the write under the inviter-chosen group id happens unless the existing record for that id is Active (absent / Pending / Inactive records are (re)written)",
                   "process_welcome upserts a Pending record (and relays) under the MLS group id found inside the welcome without looking at an "
                   "existing record: a crafted invitation for a group id the user already holds turns the Active group into Pending with "
                   "foreign data, without consent", c.loc())
+    rep.floor("existing-group-untouched", "group / relay writes reachable from process_welcome", n, 2)
 
 
 def clause_accept_decline(prog, rep):
@@ -188,8 +272,8 @@ def clause_accept_decline(prog, rep):
                 rep.check(A.succ_dominated(f, c.bb, ig), "consent", "accept/active-after-join",
                           "the group becomes Active only after StagedWelcome::into_group succeeded", "Active can be stored although joining failed", c.loc())
         # joining replaces an MLS group with the same id: must not happen to an active one
-        for c in ig:
-            ok = state_guarded(prog, f, c.bb)
+        for c in ig[:1]:
+            ok = decide_guard(prog, rep, f, lambda x: x.name == "into_group" and last_seg(x.self_adt) == "StagedWelcome", ig, "MDK::accept_welcome/StagedWelcome::into_group")
             rep.check(ok, "existing-group-untouched", "MDK::accept_welcome/StagedWelcome::into_group",
                       "joining depends on the state of an existing group with the same id",
                       "accept_welcome joins with replace_old_group() without looking at an existing record: accepting a crafted invitation "
@@ -198,10 +282,10 @@ def clause_accept_decline(prog, rep):
         writes = set("%s::%s" % x for x in P.field_const_writes(prog, f, "state"))
         rep.check(writes == {"GroupState::Inactive", "WelcomeState::Declined"}, "consent", "decline/states", "decline writes Inactive + Declined",
                   "decline_welcome writes %s" % sorted(writes), f.loc())
-        for c in f.live_calls():
-            if not K.is_storage_trait_call(c, "save_group"):
-                continue
-            ok = state_guarded(prog, f, c.bb)
+        wr = A.ReachCache(prog, lambda x: K.is_storage_trait_call(x, "save_group"))
+        sites = [c for c in f.live_calls() if wr.call(c)]
+        for c in sites[:1]:
+            ok = decide_guard(prog, rep, f, lambda x, wr=wr: wr.call(x), sites, "MDK::decline_welcome/save_group")
             rep.check(ok, "existing-group-untouched", "MDK::decline_welcome/save_group",
                       "marking the group Inactive depends on the state of the existing record",
                       "decline_welcome stores Inactive under the sender-chosen MLS group id whatever the existing record's state: declining a "
